@@ -22,6 +22,8 @@ pub enum IoOp {
     WriteAll(usize),
     /// Extend<&u8> (T: Copy): same contract as write
     ExtendRef(usize),
+    /// Read::read_exact into d bytes: Ok and d bytes removed if d <= len, otherwise UnexpectedEof
+    ReadExact(usize),
 }
 
 #[derive(Clone, Copy, Debug, PartialEq, Eq)]
@@ -134,11 +136,14 @@ fn apply<const N: usize>(b: &mut BBuf<N>, op: IoOp, api: Api, payload: &[u8]) ->
             let all = matches!(op, IoOp::WriteAll(_));
             let ret: Result<usize, String> = match api {
                 Api::Std => {
-                    if all {
+                    crate::alloc::scope_resume();
+                    let r = if all {
                         std::io::Write::write_all(b, payload).map(|_| payload.len()).map_err(|e| e.to_string())
                     } else {
                         std::io::Write::write(b, payload).map_err(|e| e.to_string())
-                    }
+                    };
+                    crate::alloc::scope_pause();
+                    r
                 }
                 #[cfg(feature = "eio")]
                 Api::Eio => {
@@ -163,13 +168,20 @@ fn apply<const N: usize>(b: &mut BBuf<N>, op: IoOp, api: Api, payload: &[u8]) ->
             IoOut { ret, bytes: vec![], untouched_ok: true }
         }
         IoOp::ExtendRef(_) => {
+            crate::alloc::scope_resume();
             b.extend(payload.iter());
+            crate::alloc::scope_pause();
             IoOut { ret: Ok(payload.len()), bytes: vec![], untouched_ok: true }
         }
         IoOp::Read(d) => {
             let mut dst = vec![SENT; d + 3];
             let ret: Result<usize, String> = match api {
-                Api::Std => std::io::Read::read(b, &mut dst[..d]).map_err(|e| e.to_string()),
+                Api::Std => {
+                    crate::alloc::scope_resume();
+                    let r = std::io::Read::read(b, &mut dst[..d]);
+                    crate::alloc::scope_pause();
+                    r.map_err(|e| e.to_string())
+                }
                 #[cfg(feature = "eio")]
                 Api::Eio => embedded_io::Read::read(b, &mut dst[..d]).map_err(|e| format!("{:?}", e)),
                 #[cfg(feature = "eioa")]
@@ -181,6 +193,35 @@ fn apply<const N: usize>(b: &mut BBuf<N>, op: IoOp, api: Api, payload: &[u8]) ->
             let untouched_ok = c <= d && dst[c.min(d + 3)..].iter().all(|&x| x == SENT);
             dst.truncate(c.min(d));
             IoOut { ret, bytes: dst, untouched_ok }
+        }
+        IoOp::ReadExact(d) => {
+            let mut dst = vec![SENT; d];
+            let ret: Result<usize, String> = match api {
+                Api::Std => {
+                    crate::alloc::scope_resume();
+                    let r = std::io::Read::read_exact(b, &mut dst[..]);
+                    crate::alloc::scope_pause();
+                    r.map(|_| d).map_err(|e| format!("{:?}", e.kind()))
+                }
+                #[cfg(feature = "eio")]
+                Api::Eio => embedded_io::Read::read_exact(b, &mut dst[..]).map(|_| d).map_err(|e| match e {
+                    embedded_io::ReadExactError::UnexpectedEof => "UnexpectedEof".to_string(),
+                    embedded_io::ReadExactError::Other(o) => format!("{:?}", o),
+                }),
+                #[cfg(feature = "eioa")]
+                Api::Eioa => noop_block(embedded_io_async::Read::read_exact(b, &mut dst[..])).and_then(|r| {
+                    r.map(|_| d).map_err(|e| match e {
+                        embedded_io_async::ReadExactError::UnexpectedEof => "UnexpectedEof".to_string(),
+                        embedded_io_async::ReadExactError::Other(o) => format!("{:?}", o),
+                    })
+                }),
+                #[allow(unreachable_patterns)]
+                _ => Err("api not built".into()),
+            };
+            if ret.is_err() {
+                dst.clear();
+            }
+            IoOut { ret, bytes: dst, untouched_ok: true }
         }
         IoOp::ReadToEnd => {
             let mut v = vec![];
@@ -228,7 +269,11 @@ fn apply<const N: usize>(b: &mut BBuf<N>, op: IoOp, api: Api, payload: &[u8]) ->
         }
         IoOp::Consume(k) => {
             match api {
-                Api::Std => std::io::BufRead::consume(b, k),
+                Api::Std => {
+                    crate::alloc::scope_resume();
+                    std::io::BufRead::consume(b, k);
+                    crate::alloc::scope_pause();
+                }
                 #[cfg(feature = "eio")]
                 Api::Eio => embedded_io::BufRead::consume(b, k),
                 #[cfg(feature = "eioa")]
@@ -240,7 +285,12 @@ fn apply<const N: usize>(b: &mut BBuf<N>, op: IoOp, api: Api, payload: &[u8]) ->
         }
         IoOp::Flush => {
             let ret: Result<usize, String> = match api {
-                Api::Std => std::io::Write::flush(b).map(|_| 0).map_err(|e| e.to_string()),
+                Api::Std => {
+                    crate::alloc::scope_resume();
+                    let r = std::io::Write::flush(b);
+                    crate::alloc::scope_pause();
+                    r.map(|_| 0).map_err(|e| e.to_string())
+                }
                 #[cfg(feature = "eio")]
                 Api::Eio => embedded_io::Write::flush(b).map(|_| 0).map_err(|e| format!("{:?}", e)),
                 #[cfg(feature = "eioa")]
@@ -281,7 +331,17 @@ fn step_std<const N: usize>(b: &mut BBuf<N>, m: &mut VecDeque<u8>, op: IoOp, nex
             .collect(),
         _ => vec![],
     };
+    crate::alloc::scope_begin();
+    crate::alloc::scope_pause();
     let r = catch_unwind(AssertUnwindSafe(|| apply(b, op, Api::Std, &payload)));
+    let counts = crate::alloc::scope_end();
+    if r.is_ok() && (counts.allocs | counts.deallocs | counts.reallocs) != 0 {
+        let c = ctx.cur_case.clone();
+        let name = format!("{:?}", op);
+        let name = name.split('(').next().unwrap().to_string();
+        ctx.violation("C17", format!("io={}|ncap={}|allocates", name, crate::engine::ncls(N)), format!("{:?}: {:?}; case={}", op, counts, c));
+    }
+    ctx.count("alloc_scopes_checked", 1);
     let out = match r {
         Ok(o) => o,
         Err(_) => {
@@ -295,7 +355,9 @@ fn step_std<const N: usize>(b: &mut BBuf<N>, m: &mut VecDeque<u8>, op: IoOp, nex
     trace_num(0x10, *out.ret.as_ref().unwrap_or(&usize::MAX) as u64);
     trace_num(0x11, hash64(&format!("{:?}", out.bytes)));
     if let Err(e) = &out.ret {
-        viol14(ctx, N, op, "error", format!("{:?} returned Err({})", op, e));
+        if !matches!(op, IoOp::ReadExact(d) if d > m.len()) {
+            viol14(ctx, N, op, "error", format!("{:?} returned Err({})", op, e));
+        }
     }
     let before: Vec<u8> = m.iter().copied().collect();
     match op {
@@ -324,6 +386,26 @@ fn step_std<const N: usize>(b: &mut BBuf<N>, m: &mut VecDeque<u8>, op: IoOp, nex
             }
             for _ in 0..want {
                 m.pop_front();
+            }
+        }
+        IoOp::ReadExact(d) => {
+            if d <= m.len() {
+                let wb: Vec<u8> = m.iter().take(d).copied().collect();
+                if out.ret != Ok(d) || out.bytes != wb {
+                    viol14(ctx, N, op, "wrong_read", format!("read_exact of {} bytes from {:?}: {:?} bytes {:?}, expected {:?}", d, before, out.ret, out.bytes, wb));
+                }
+                for _ in 0..d {
+                    m.pop_front();
+                }
+            } else {
+                // std documents: on UnexpectedEof the contents of the destination and how much was
+                // consumed are unspecified, so only the error kind is judged; resynchronise
+                if out.ret != Err("UnexpectedEof".to_string()) {
+                    viol14(ctx, N, op, "wrong_read", format!("read_exact of {} bytes from {} buffered returned {:?}", d, before.len(), out.ret));
+                }
+                // what is left is unspecified: start over from an empty buffer (twins do the same)
+                b.clear();
+                m.clear();
             }
         }
         IoOp::ReadToEnd => {
@@ -362,6 +444,9 @@ fn ops_for(n: usize, thorough: bool) -> Vec<IoOp> {
     v.push(IoOp::WriteAll(n + 1));
     v.push(IoOp::ExtendRef(n / 2 + 1));
     v.push(IoOp::ExtendRef(2 * n + 1));
+    v.push(IoOp::ReadExact(1));
+    v.push(IoOp::ReadExact(n));
+    v.push(IoOp::ReadExact(n + 1));
     for d in 0..=n + 2 {
         v.push(IoOp::Read(d));
     }
@@ -453,6 +538,10 @@ pub fn io<const N: usize>(ctx: &mut Ctx) {
                                         ctx.violation("C16", format!("io={:?}|api={:?}|ncap={}|panic", std::mem::discriminant(&op), api, crate::engine::ncls(N)), format!("{:?} via {:?} panicked {:?}; case={}", op, api, p, c));
                                     }
                                     Ok(o2) => {
+                                        let eof = matches!(op, IoOp::ReadExact(_)) && out.ret == Err("UnexpectedEof".to_string());
+                                        if eof {
+                                            tb.clear();
+                                        }
                                         let same = o2 == out && contents(tb) == contents(&b);
                                         if !same {
                                             let c = ctx.cur_case.clone();
@@ -464,7 +553,7 @@ pub fn io<const N: usize>(ctx: &mut Ctx) {
                                                 format!("step {} {:?}: std -> {:?} contents {:?}; {:?} -> {:?} contents {:?}; case={}", i, op, out, contents(&b), api, o2, contents(tb), c),
                                             );
                                         }
-                                        if let Err(e) = &o2.ret {
+                                        if let (Err(e), false) = (&o2.ret, eof) {
                                             let c = ctx.cur_case.clone();
                                             ctx.violation("C16", format!("io={:?}|api={:?}|ncap={}|error", std::mem::discriminant(&op), api, crate::engine::ncls(N)), format!("{:?} via {:?}: Err({}); case={}", op, api, e, c));
                                         }
@@ -522,7 +611,7 @@ pub fn io_random<const N: usize>(ctx: &mut Ctx) {
                 4..=5 => IoOp::Read(pickn(&mut rng, cur)),
                 6 => IoOp::FillBuf,
                 7 => IoOp::Consume(if rng.chance(1, 10) { usize::MAX } else { pickn(&mut rng, cur) }),
-                8 => *rng.pick(&[IoOp::Flush, IoOp::ReadToEnd, IoOp::WriteAll(N / 2 + 1)]),
+                8 => *rng.pick(&[IoOp::Flush, IoOp::ReadToEnd, IoOp::WriteAll(N / 2 + 1), IoOp::ReadExact(cur), IoOp::ReadExact(cur + 1), IoOp::ReadExact(cur / 2), IoOp::ExtendRef(N / 3 + 1)]),
                 _ => IoOp::Read(pickn(&mut rng, N)),
             };
             if let Some(s) = front_slot(&b) {
@@ -535,8 +624,12 @@ pub fn io_random<const N: usize>(ctx: &mut Ctx) {
             for (api, tb) in twin_bufs.iter_mut() {
                 let r = catch_unwind(AssertUnwindSafe(|| apply(tb, op, *api, &payload)));
                 ctx.count("twin_ops", 1);
+                let eof = matches!(op, IoOp::ReadExact(_)) && out.ret == Err("UnexpectedEof".to_string());
+                if eof {
+                    tb.clear();
+                }
                 let ok = match &r {
-                    Ok(o2) => *o2 == out && contents(tb) == contents(&b) && o2.ret.is_ok(),
+                    Ok(o2) => *o2 == out && contents(tb) == contents(&b) && (o2.ret.is_ok() || eof),
                     Err(_) => false,
                 };
                 if !ok {
